@@ -19,6 +19,7 @@ def ops_all():
         if 1 <= n <= 64:
             ops.append("emu %d pending" % n)     # another signal blocked and pending meanwhile
             ops.append("emu %d group" % n)       # a bystander process shares the process group
+            ops.append("emu %d worker" % n)      # emulated on a second thread while the main thread idles, unblocked
         if n not in (9, 19):
             if 1 <= n <= 64:   # a handler context exists only for numbers the OS accepts
                 ops.append("emu %d handler" % n)
@@ -111,7 +112,7 @@ class C16(PropCheck):
         for f in failures:
             uniq.setdefault(f["key"], f)
         return {"evaluations": evals, "distinct_nontrivial": len([o for o in ops if o.startswith("emu")]),
-                "rule": "every signal number 1..64 (except glibc's 32/33) and %d out-of-range numbers, in contexts normal / another signal pending / with a bystander process in the same process group (whose fate is part of the outcome) / inside own handler / via register_conditional_default; each case is a pair of forked children (native default vs emulation) classified by waitpid; distinct non-trivial = emulation cases (names excluded)" % len(OUT_OF_RANGE),
+                "rule": "every signal number 1..64 (except glibc's 32/33) and %d out-of-range numbers, in contexts normal / another signal pending / with a bystander process in the same process group (whose fate is part of the outcome) / on a second thread while the main thread idles / inside own handler / via register_conditional_default; each case is a pair of forked children (native default vs emulation) classified by waitpid; distinct non-trivial = emulation cases (names excluded)" % len(OUT_OF_RANGE),
                 "samples": samples, "traces_validated_against_impl": evals, "distribution": dist,
                 "exhaustive": True, "failures": list(uniq.values())}
 
